@@ -243,9 +243,9 @@ def cond_pipe(case, P, d):
     if pipe in ("het_moments", "het_bound"):
         W = P["HW"]
         if case["link"] in ("heaviside", "relu"):
-            # keep h = w'x + w0 away from 0 over the mass of p(x): large offset relative to the weights
-            # (weights bounded away from zero: the step / ReLU classes divide by them)
-            W = jnp.concatenate([3.0 + softplus(W[:, :1]), 0.05 + 0.075 * (1.0 + jnp.tanh(W[:, 1:]))], axis=1)
+            # weights bounded away from zero (the step / ReLU classes divide by them); the kink h = 0 may lie anywhere,
+            # also inside the mass of p(x): the bound is a smooth function of the parameters there as well
+            W = jnp.concatenate([W[:, :1], 0.1 + softplus(W[:, 1:])], axis=1)
         h = HET[case["link"]](M=P["HM"], b=P["Hb"], A=spd(P["HA"]), W=W)
         if pipe == "het_moments":
             py = h.affine_marginal_transformation(px)
